@@ -72,9 +72,19 @@ static int obj_reset(const ObjCfg &c, void *m) {
 }
 
 // dirty the stack below the current frame so that stale stack contents differ between environments
+// The residue has to look like what a real stack holds - moderate floats and small integers left by earlier DSP code: wild byte
+// patterns (huge floats, NaNs) overflow any energy computation they leak into to the same inf / 0 result in both environments and
+// hide the dependence (seeded change C12-c3 went unnoticed that way). Blocks of 64 words alternate between floats in (-1, 1) and
+// 16-bit-range integers, drawn from a per-environment stream.
 static __attribute__((noinline)) void scribble_stack(int pattern) {
-  volatile unsigned char buf[200000];   // deeper than the deepest library call (VLAs of a 120 ms stereo frame included)
-  for (size_t i = 0; i < sizeof buf; i++) buf[i] = (unsigned char)(pattern + (int)i * 7);
+  volatile uint32_t buf[50000];   // 200 kB: deeper than the deepest library call (VLAs of a 120 ms stereo frame included)
+  uint64_t x = (uint64_t)pattern * 0x9E3779B97F4A7C15ULL + 12345;
+  for (size_t i = 0; i < sizeof buf / sizeof buf[0]; i++) {
+    x = x * 6364136223846793005ULL + 1442695040888963407ULL;
+    uint32_t w = (uint32_t)(x >> 33);
+    if ((i >> 6) & 1) { int32_t v = (int32_t)(w & 0xFFFF) - 32768; buf[i] = (uint32_t)v; }
+    else { float f = (float)((int32_t)(w & 0xFFFFFF) - (1 << 23)) / (float)(1 << 23); uint32_t u; memcpy(&u, &f, 4); buf[i] = u; }
+  }
   __asm__ volatile("" ::: "memory");
 }
 
@@ -263,6 +273,7 @@ struct Pass {
       Bytes pkt; int er = helper.encode(pcm.data(), frame, (int)std::max<int64_t>(1, op.arg(1, 1500)), FMT_F32, pkt);
       pos += frame;
       if (er <= 0) return;
+      if (run.verbose) printf("step %ld: helper packet %d bytes toc %02x (mode %d)\n", steps + 1, er, pkt[0], toc_mode(pkt[0]));
       int dur48 = opus_packet_get_nb_samples(pkt.data(), (int)pkt.size(), 48000);
       if (cfg.kind != O_DEC) { dur48 = (int)((int64_t)frame * 48000 / helper.L.fs); }
       if (dur48 <= 0) return;
@@ -403,6 +414,7 @@ Plan gen(uint64_t seed, int tier) {
     if (r.chance(0.8)) p.ops.push_back(mkop("CTL", {OPUS_SET_SIGNAL_REQUEST, OPUS_SIGNAL_VOICE}));
     if (r.chance(0.8)) { p.ops.push_back(mkop("CTL", {OPUS_SET_INBAND_FEC_REQUEST, 1})); p.ops.push_back(mkop("CTL", {OPUS_SET_PACKET_LOSS_PERC_REQUEST, r.pick({15, 15, 25})})); }
     if (r.chance(0.5)) p.ops.push_back(mkop("CTL", {OPUS_SET_BANDWIDTH_REQUEST, 1105}));
+    if (r.chance(0.5)) p.ops.push_back(mkop("CTL", {11002 /* OPUS_SET_FORCE_MODE */, 1001 /* hybrid, as opus_demo does: dual stereo + hybrid folding */}));
   }
   if (hi_stereo && r.chance(0.6)) p.ops.push_back(mkop("SRC", {SRC_BURSTYSTEREO, r.pick({180, 440, 1000}), r.pick({300, 500, 900}), r.range(1, 1000), 0}));
   else
